@@ -525,3 +525,11 @@ def cache_keys(ctx):
     between objects every attribute of self - that the cached value depends on through data or control flow."""
     from .common_cache import cache_keys as run
     run(ctx, [('scripts', lambda q: True)], 'scripts')
+
+
+@PROP.obligation('C19.attr-memos')
+def attr_memos(ctx):
+    """Values cached in attributes of Script: every method that assigns state a cached value was computed from (and that the reuse test
+    does not validate) must reset the cache."""
+    from .common_cache import attr_memos as run
+    run(ctx, 'scripts', [['Script']], 'Script', 'the cached raw script no longer matches the commands')
